@@ -1889,14 +1889,18 @@ class RecordArrayType(ContentType):
         positions.extend([None] * form.numfields)
         sharedptrs.extend([None] * form.numfields)
         if form.istuple:
-            for i, (_, content) in enumerate(form.contents.items()):
+            for i, content in enumerate(
+                form.content(j) for j in range(form.numfields)
+            ):
                 positions[
                     pos + cls.CONTENTS + i
                 ] = ak._connect._numba.arrayview.tolookup(
                     content, positions, sharedptrs, arrays
                 )
         else:
-            for i, (_, content) in enumerate(form.contents.items()):
+            for i, content in enumerate(
+                form.content(j) for j in range(form.numfields)
+            ):
                 positions[
                     pos + cls.CONTENTS + i
                 ] = ak._connect._numba.arrayview.tolookup(
@@ -1909,11 +1913,13 @@ class RecordArrayType(ContentType):
         contents = []
         if form.istuple:
             recordlookup = None
-            for x in form.contents.values():
+            for i in range(form.numfields):
+                x = form.content(i)
                 contents.append(ak._connect._numba.arrayview.tonumbatype(x))
         else:
             recordlookup = []
-            for n, x in form.contents.items():
+            for i in range(form.numfields):
+                n, x = form.key(i), form.content(i)
                 contents.append(ak._connect._numba.arrayview.tonumbatype(x))
                 recordlookup.append(n)
 
